@@ -12,5 +12,5 @@ open(p,'w').write(s.replace(old,new,1))
 PY
 (cd $wt && GOFLAGS=-mod=mod go build ./... ) || echo "DOES NOT COMPILE"
 hf=""; [ "$h" != "-" ] && hf="--harness $h"
-SYMGO_REPO=$wt SYMGO_REPLAYS=/tmp/ownmut_replays SYMGO_EVIDENCE=/tmp/ownmut_ev timeout 900 /verif/bin/symgo check --prop $prop $hf --jobs ${JOBS:-6} 2>&1 | grep "^harness\|NOT-DEC\|VIOL\|finger\|UNCONF\|MACH" | cut -c1-200
+SYMGO_REPO=$wt SYMGO_REPLAYS=/tmp/ownmut_replays SYMGO_EVIDENCE=/tmp/ownmut_ev timeout 900 ${SYMGO_BIN:-/verif/bin/symgo} check --prop $prop $hf --jobs ${JOBS:-6} 2>&1 | grep "^harness\|NOT-DEC\|VIOL\|finger\|UNCONF\|MACH" | cut -c1-200
 git -C /repo worktree remove --force $wt
